@@ -16,7 +16,6 @@ use sea_query::extension::mysql::*;
 use sea_query::extension::postgres::*;
 use sea_query::extension::sqlite::*;
 use sea_query::*;
-use std::fmt::Write as _;
 
 const MY: u8 = 1;
 const PG: u8 = 2;
@@ -642,11 +641,13 @@ fn table_alter_my_pg() -> TableAlterStatement {
 }
 
 fn rcoltype(t: &ColumnType) -> String {
-    rs(Table::create().table(pool().t.clone()).col(ColumnDef::new_with_type(pool().a.clone(), t.clone())), PG)
+    let mask = if matches!(t, ColumnType::Year) { MY } else { PG };
+    rs(Table::create().table(pool().t.clone()).col(ColumnDef::new_with_type(pool().a.clone(), t.clone())), mask)
 }
 
 fn schema(rig: &mut Rig) {
     row!(rig, "TableCreateStatement", TableCreateStatement, c, table_create, |t| rs(t, ALL));
+    row!(rig, "TableCreateStatement/pg", TableCreateStatement, c, table_create_pg, |t| rs(t, PG));
     row!(rig, "TableAlterStatement", TableAlterStatement, c, table_alter_my_pg, |t| rs(t, MY | PG));
     row!(
         rig,
@@ -718,14 +719,24 @@ fn schema(rig: &mut Rig) {
             .to_owned(),
         |t| rs(t, PG)
     );
-    row!(rig, "IndexDropStatement", IndexDropStatement, c, || Index::drop().name("ix_t_a_b").table((pool().schema.clone(), pool().t.clone())).if_exists().to_owned(), |t| rs(t, ALL));
+    row!(rig, "IndexDropStatement", IndexDropStatement, c, || Index::drop().name("ix_t_a_b").table((pool().schema.clone(), pool().t.clone())).if_exists().to_owned(), |t| rs(t, PG | SL));
+    row!(rig, "IndexDropStatement/mysql", IndexDropStatement, c, || Index::drop().name("ix_t_a_b").table(pool().t.clone()).to_owned(), |t| rs(t, ALL));
     row!(rig, "Index", Index, c, || Index, |_| rs(&index_create(), ALL));
     row!(rig, "IndexStatement", IndexStatement, c, || IndexStatement::Create(index_create()), dbg);
     row!(rig, "IndexType", IndexType, c, || IndexType::Custom(pool().alias.clone()), dbg);
     row!(rig, "IndexOrder", IndexOrder, c, || IndexOrder::Desc, dbg);
     row!(rig, "TableIndex", TableIndex, c, || index_create().get_index_spec().clone(), |t| t.get_column_names().join(","));
     row!(rig, "ForeignKeyCreateStatement", ForeignKeyCreateStatement, c, fk_create, |t| rs(t, MY | PG));
-    row!(rig, "ForeignKeyDropStatement", ForeignKeyDropStatement, c, || ForeignKey::drop().name("fk_glyph_font").table((pool().schema.clone(), pool().t.clone())).to_owned(), |t| rs(t, MY | PG));
+    row!(
+        rig,
+        "ForeignKeyCreateStatement/pg",
+        ForeignKeyCreateStatement,
+        c,
+        || ForeignKey::create().name("fk_s").from((pool().schema.clone(), pool().t.clone()), (pool().a.clone(), pool().b.clone())).to((pool().schema.clone(), F::Table), (F::Id, F::Name)).on_delete(ForeignKeyAction::SetDefault).to_owned(),
+        |t| rs(t, PG)
+    );
+    row!(rig, "ForeignKeyDropStatement", ForeignKeyDropStatement, c, || ForeignKey::drop().name("fk_glyph_font").table(pool().t.clone()).to_owned(), |t| rs(t, MY | PG));
+    row!(rig, "ForeignKeyDropStatement/pg", ForeignKeyDropStatement, c, || ForeignKey::drop().name("fk_s").table((pool().schema.clone(), pool().t.clone())).to_owned(), |t| rs(t, PG));
     row!(rig, "ForeignKey", ForeignKey, c, || ForeignKey, |_| rs(&fk_create(), MY | PG));
     row!(rig, "ForeignKeyStatement", ForeignKeyStatement, c, || ForeignKeyStatement::Create(fk_create()), dbg);
     row!(rig, "TableForeignKey", TableForeignKey, c, table_fk, |t| format!("{:?} {:?} {:?}", t.get_ref_table(), t.get_columns(), t.get_ref_columns()));
